@@ -346,7 +346,7 @@ fn toy_history(
             TL_ID.with(|x| x.set(t as u64 + 1));
             for seq in 0..per_thread {
                 let hdl = trng.pick(&handles).clone();
-                let choice = trng.weighted(&[50, 12, 10, 8, 20, 5]);
+                let choice = trng.weighted(&[50, 12, 10, 8, 14, 5, 8]);
                 let id = next_id.fetch_add(1, Ordering::SeqCst);
                 let (kind, cmd): (&'static str, Option<LogCmd>) = match choice {
                     0 => ("append", Some(LogCmd::Append(id))),
@@ -354,8 +354,35 @@ fn toy_history(
                     2 => ("noop", Some(LogCmd::Noop)),
                     3 => ("presavefail", Some(LogCmd::PreSaveFail(id))),
                     4 => ("read", None),
-                    _ => ("snapshot", None),
+                    5 => ("snapshot", None),
+                    _ => ("history", None),
                 };
+                if kind == "history" {
+                    // the history view, read while others write and read:
+                    // every listing is 1..n without gaps or repeats
+                    let res = store.command_history(
+                        &hdl, CommandHistoryCriteria::default());
+                    let (ok, err) = match res {
+                        Ok(h) => {
+                            let vs: Vec<u64> = h.commands.iter()
+                                .map(|c| c.version).collect();
+                            let want: Vec<u64> = (1..=vs.len() as u64).collect();
+                            if vs == want && h.total == vs.len() {
+                                (true, None)
+                            } else {
+                                (false, Some(format!(
+                                    "history lists versions {vs:?} total {}",
+                                    h.total)))
+                            }
+                        }
+                        Err(e) => (false, Some(format!("history fails: {e}"))),
+                    };
+                    recs.lock().unwrap().push(Rec {
+                        thread: t, seq, entity: hdl.to_string(), kind, id,
+                        ok, version: None, items: None, err,
+                    });
+                    continue
+                }
                 let res = match (&cmd, kind) {
                     (Some(c), _) => store.command(SentCommand::new(
                         hdl.clone(), None, c.clone(), &actor)),
@@ -388,6 +415,13 @@ fn toy_history(
                      "a worker thread panicked inside the store".into(),
                      wit(json!({}))))
     }
+    if let Some(x) = recs.iter().find(|x| x.kind == "history" && !x.ok) {
+        return Some(("concurrent-history-read-wrong".into(),
+            format!("thread {} entity {}: {}", x.thread, x.entity,
+                    x.err.clone().unwrap_or_default()), wit(json!({}))))
+    }
+    r.count("concurrent_history_reads",
+            recs.iter().filter(|x| x.kind == "history").count() as u64);
 
     // interleaving signature: order in which threads entered the critical
     // section
